@@ -73,8 +73,9 @@ def handleAccept (s : St) : St :=
 def handleReadable (w : World) (cid : Nat) : World :=
   if !w.st.socketPeers.contains cid then w
   else
-    let (w, ev) := w.popRx cid
-    match ev with
+    let r := w.popRx cid
+    let w := r.1
+    match r.2 with
     | none => w
     | some .soft => w
     | some .hard =>
@@ -86,50 +87,56 @@ def handleReadable (w : World) (cid : Nat) : World :=
     | some (.data msgs) => { w with st := w.st.modConn cid fun c => { c with inQ := c.inQ ++ [msgs] } }
     | some .touch => { w with st := w.st.modConn cid fun c => { c with inQ := c.inQ ++ [[]] } }
 
+/-- A writable socket of a CONNECTING connection: the result of the
+    non-blocking connect. `false` = the connection was given up. -/
+def connectResult (w : World) (cid : Nat) (c : Conn) : World × Bool :=
+  let s := w.st
+  if c.state == .connecting then
+    let ok := match w.soErr.find? (·.1 == cid) with
+      | some (_, b) => b
+      | none => true
+    if ok then
+      let s := s.modConn cid fun c => { c with state := .connected, established := s.now }
+      let s := match findConnectionPeer s c with
+        | some i => s.modPeer i fun p => { p with lastConnect := some s.now }
+        | none => s
+      ({ w with st := sendCer s cid }, true)
+    else
+      let s := closeConnectionSocket s cid .failConn
+      ({ w with st := connClose s cid false }, false)
+  else (w, true)
+
+/-- A writable socket: hand the write buffer to `send()`. -/
+def flushWritable (w : World) (cid : Nat) : World :=
+  let s := w.st
+  match s.conn? cid with
+  | none => w
+  | some c =>
+    if c.wbuf.isEmpty then
+      if c.state == .closing then { w with st := closeConnectionSocket s cid .clean } else w
+    else
+      let r := w.popTx cid
+      let w := r.1
+      match r.2 with
+      | .soft => w
+      | .hard => { w with st := connClose w.st cid true }
+      | .all =>
+        let s := w.st
+        let s := c.wbuf.foldl (fun s m => s.emit (.wrote cid m)) s
+        let s := s.modConn cid fun c => { c with wbuf := [] }
+        let s := match s.conn? cid with
+          | some c => if c.state == .closing then closeConnectionSocket s cid .clean else s
+          | none => s
+        { w with st := s }
+
 /-- A writable peer socket. -/
 def handleWritable (w : World) (cid : Nat) : World :=
-  let s := w.st
-  if !s.socketPeers.contains cid then w
-  else match s.conn? cid with
+  if !w.st.socketPeers.contains cid then w
+  else match w.st.conn? cid with
     | none => w
     | some c =>
-      -- CONNECTING: the result of the non-blocking connect
-      let (w, cont) :=
-        if c.state == .connecting then
-          let ok := match w.soErr.find? (·.1 == cid) with
-            | some (_, b) => b
-            | none => true
-          if ok then
-            let s := s.modConn cid fun c => { c with state := .connected, established := s.now }
-            let s := match findConnectionPeer s c with
-              | some i => s.modPeer i fun p => { p with lastConnect := some s.now }
-              | none => s
-            ({ w with st := sendCer s cid }, true)
-          else
-            let s := closeConnectionSocket s cid .failConn
-            ({ w with st := connClose s cid false }, false)
-        else (w, true)
-      if !cont then w
-      else
-        let s := w.st
-        match s.conn? cid with
-        | none => w
-        | some c =>
-          if c.wbuf.isEmpty then
-            if c.state == .closing then { w with st := closeConnectionSocket s cid .clean } else w
-          else
-            let (w, tx) := w.popTx cid
-            match tx with
-            | .soft => w
-            | .hard => { w with st := connClose w.st cid true }
-            | .all =>
-              let s := w.st
-              let s := c.wbuf.foldl (fun s m => s.emit (.wrote cid m)) s
-              let s := s.modConn cid fun c => { c with wbuf := [] }
-              let s := match s.conn? cid with
-                | some c => if c.state == .closing then closeConnectionSocket s cid .clean else s
-                | none => s
-              { w with st := s }
+      let wc := connectResult w cid c
+      if !wc.2 then wc.1 else flushWritable wc.1 cid
 
 /-- One pass of the `_handle_connections` loop body. -/
 def ioIteration (w : World) : World :=
@@ -212,50 +219,62 @@ def sendBuiltAnswer (s : St) (ans : AMsg) (typed : Bool) : St × Bool :=
   | .error _ => (routeAnswerSideEffect s ans, false)
   | .ok (s, cid) => ((sendMessage s cid ans typed).1, true)
 
+/-- One turn of `ThreadingApplication._wait_for_recv_msg`: take a request from
+    the receive queue, take a thread slot and start the handler thread — or
+    answer DIAMETER_TOO_BUSY when no slot is free. -/
+def appRecvStep (infoOf : AMsg → MsgInfo) (ai : Nat) (maxThreads : Nat) (s : St) (m : AMsg) : St :=
+  match s.tapps[ai]? with
+  | none => s
+  | some a =>
+    if !a.recvAlive then s
+    else
+      let s := s.modTApp ai fun a => { a with recvQ := a.recvQ.drop 1 }
+      if maxThreads > 0 && a.slots ≥ maxThreads then
+        -- queue.Full
+        let info := infoOf m
+        let r := sendBuiltAnswer s (generateAnswer s m info (some 3004)) info.ansTyped
+        if r.2 || Config.appConsumersCatch then r.1
+        else ({ r.1 with crashed := r.1.crashed + 1 }.modTApp ai fun a => { a with recvAlive := false }).emit
+          (.crash s!"app a{ai} _recv_queue_consumer" "NotRoutable")
+      else
+        let s := s.modTApp ai fun a => { a with slots := a.slots + 1 }
+        { s with deferred := s.deferred ++ [(ai, m)] }
+
 /-- `ThreadingApplication._wait_for_recv_msg`: drain the receive queue. -/
 def pumpAppRecv (infoOf : AMsg → MsgInfo) (s : St) (ai : Nat) : St :=
-  match s.apps[ai]? with
+  match s.apps[ai]?, s.tapps[ai]? with
+  | some a, some t =>
+    if a.kind != .threading || !t.recvAlive || t.held then s
+    else t.recvQ.foldl (appRecvStep infoOf ai a.maxThreads) s
+  | _, _ => s
+
+/-- One turn of `ThreadingApplication._wait_for_resp_msg` for a queued answer:
+    give the slot back, send the answer. -/
+def appRespStep (ai : Nat) (s : St) (ans : AMsg) : St :=
+  match s.tapps[ai]? with
   | none => s
   | some a =>
-    if a.kind != .threading || !a.recvAlive || a.held then s
-    else a.recvQ.foldl (fun s m =>
-      match s.apps[ai]? with
-      | none => s
-      | some a =>
-        if !a.recvAlive then s
-        else
-          let s := s.modApp ai fun a => { a with recvQ := a.recvQ.drop 1 }
-          if a.maxThreads > 0 && a.slots ≥ a.maxThreads then
-            -- queue.Full: answer DIAMETER_TOO_BUSY
-            let info := infoOf m
-            let (s, ok) := sendBuiltAnswer s (generateAnswer s m info (some 3004)) info.ansTyped
-            if ok || Config.appConsumersCatch then s
-            else (s.modApp ai fun a => { a with recvAlive := false }).emit (.crash s!"app a{ai} _recv_queue_consumer" "NotRoutable")
-          else
-            let s := s.modApp ai fun a => { a with slots := a.slots + 1 }
-            { s with deferred := s.deferred ++ [(ai, m)] }) s
+    if !a.respAlive then s
+    else
+      let s := s.modTApp ai fun a => { a with respQ := a.respQ.drop 1, slots := a.slots - 1 }
+      let r := sendBuiltAnswer s ans true
+      if r.2 || Config.appConsumersCatch then r.1
+      else ({ r.1 with crashed := r.1.crashed + 1 }.modTApp ai fun a => { a with respAlive := false }).emit
+        (.crash s!"app a{ai} _resp_queue_consumer" "NotRoutable")
+
+/-- …and for the queued `None` results: they only give their slot back. -/
+def appRespNones (ai : Nat) (s : St) : St :=
+  match s.tapps[ai]? with
+  | some a => if a.respAlive then s.modTApp ai fun a => { a with slots := a.slots - a.respNone, respNone := 0 } else s
+  | none => s
 
 /-- `ThreadingApplication._wait_for_resp_msg`: drain the response queue. -/
-def pumpAppResp (infoOf : AMsg → MsgInfo) (s : St) (ai : Nat) : St :=
-  match s.apps[ai]? with
-  | none => s
-  | some a =>
-    if a.kind != .threading || !a.respAlive || a.held then s
-    else
-      let s := a.respQ.foldl (fun s ans =>
-        match s.apps[ai]? with
-        | none => s
-        | some a =>
-          if !a.respAlive then s
-          else
-            let s := s.modApp ai fun a => { a with respQ := a.respQ.drop 1, slots := a.slots - 1 }
-            let (s, ok) := sendBuiltAnswer s ans true
-            if ok || Config.appConsumersCatch then s
-            else (s.modApp ai fun a => { a with respAlive := false }).emit (.crash s!"app a{ai} _resp_queue_consumer" "NotRoutable")) s
-      -- `None` results only give their slot back
-      match s.apps[ai]? with
-      | some a => if a.respAlive then s.modApp ai fun a => { a with slots := a.slots - a.respNone, respNone := 0 } else s
-      | none => s
+def pumpAppResp (s : St) (ai : Nat) : St :=
+  match s.apps[ai]?, s.tapps[ai]? with
+  | some a, some t =>
+    if a.kind != .threading || !t.respAlive || t.held then s
+    else appRespNones ai (t.respQ.foldl (appRespStep ai) s)
+  | _, _ => s
 
 /-- A started handler thread runs `_process_recv_msg`. -/
 def runHandler (infoOf : AMsg → MsgInfo) (s : St) (k : Nat) : St :=
@@ -265,24 +284,24 @@ def runHandler (infoOf : AMsg → MsgInfo) (s : St) (k : Nat) : St :=
     let s := { s with deferred := s.deferred.eraseIdx k, appRequests := s.appRequests ++ [(ai, m)] }
     let s := s.emit (.appReq ai m)
     let info := infoOf m
-    match s.apps[ai]? with
+    match s.tapps[ai]? with
     | none => s
     | some a =>
       if a.outcome == "none" then
-        if Config.slotAlwaysReturned then s.modApp ai fun a => { a with respNone := a.respNone + 1 } else s
+        if Config.slotAlwaysReturned then s.modTApp ai fun a => { a with respNone := a.respNone + 1 } else s
       else
         let rc := if a.outcome == "raise" then 5012 else 2001
-        s.modApp ai fun a => { a with respQ := a.respQ ++ [generateAnswer s m info (some rc)] }
+        s.modTApp ai fun a => { a with respQ := a.respQ ++ [generateAnswer s m info (some rc)] }
 
 def pumpAll (infoOf : AMsg → MsgInfo) (s : St) : St :=
   let s := s.conns.foldl (fun s c =>
     let s := (List.range ((s.conn? c.id).map (·.inQ.length) |>.getD 0)).foldl (fun s _ => pumpReader infoOf s c.id) s
     pumpWriter s c.id) s
-  (List.range s.apps.length).foldl (fun s ai => pumpAppResp infoOf (pumpAppRecv infoOf s ai) ai) s
+  (List.range s.apps.length).foldl (fun s ai => pumpAppResp (pumpAppRecv infoOf s ai) ai) s
 
 def appsBusy (s : St) : Bool :=
-  s.apps.any fun a => a.kind == .threading && !a.held &&
-    ((a.recvAlive && !a.recvQ.isEmpty) || (a.respAlive && (!a.respQ.isEmpty || a.respNone > 0)))
+  (s.apps.zip s.tapps).any fun (a, t) => a.kind == .threading && !t.held &&
+    ((t.recvAlive && !t.recvQ.isEmpty) || (t.respAlive && (!t.respQ.isEmpty || t.respNone > 0)))
 
 def busy (w : World) : Bool :=
   !w.st.pipe.isEmpty || appsBusy w.st ||
@@ -310,8 +329,8 @@ def appSendAnswer (s : St) (ai : Nat) (req : AMsg) (info : MsgInfo) (rc : Nat) :
   match routeAnswer s ans with
   | .error _ => (routeAnswerSideEffect s ans).emit (.raised ai "NotRoutable")
   | .ok (s, cid) =>
-    let (s, ok) := sendMessage s cid ans info.ansTyped
-    if ok then s.emit (.appSent ai) else s.emit (.raised ai "TypeError")
+    let r := sendMessage s cid ans info.ansTyped
+    if r.2 then r.1.emit (.appSent ai) else r.1.emit (.raised ai "TypeError")
 
 /-- The peers `route_request` may use: configured for the application in the
     realm, else the realm's defaults. -/
@@ -360,11 +379,13 @@ def routeRequest (s : St) (ai : Nat) (m : AMsg) (info : MsgInfo) : Except Exn (S
           match s.conn? cid with
           | none => .error .other
           | some c =>
-            let (s, m) :=
+            let sm : St × AMsg :=
               if m.hbh == 0 then
                 let h := seqNext c.hbh
                 (s.modConn cid fun x => { x with hbh := h }, { m with hbh := h })
               else (s, m)
+            let s := sm.1
+            let m := sm.2
             let key := (m.hbh, m.e2e)
             let s := { s with appWaiting :=
               if s.appWaiting.any (·.1 == key) then s.appWaiting.map fun (k, v) => if k == key then (k, ai) else (k, v)
@@ -374,18 +395,19 @@ def routeRequest (s : St) (ai : Nat) (m : AMsg) (info : MsgInfo) : Except Exn (S
 /-- `Application.send_request` up to the point where it blocks. The state is
     returned also when routing raises (the end-to-end id has been drawn). -/
 def appSendRequestBegin (s : St) (ai : Nat) (m : AMsg) (info : MsgInfo) : St × Except Exn AMsg :=
-  let (s, m) := if m.e2e == 0 then
+  let sm : St × AMsg := if m.e2e == 0 then
       let e := seqNext s.e2e
       ({ s with e2e := e }, { m with e2e := e })
     else (s, m)
+  let s := sm.1
+  let m := sm.2
   let m := if m.app == 0 then { m with app := (s.apps[ai]?).map (·.id) |>.getD 0 } else m
   match routeRequest s ai m info with
   | .error e => (s, .error e)
   | .ok (s, cid, m) =>
     -- `self._answer_waiting[hbh] = waiting` (a dict: a second request with the same id takes the slot over)
     let s := s.modApp ai fun a => { a with answerWaiting := if a.answerWaiting.contains m.hbh then a.answerWaiting else a.answerWaiting ++ [m.hbh] }
-    let (s, _) := sendMessage s cid m true
-    (s, .ok m)
+    ((sendMessage s cid m true).1, .ok m)
 
 /-- …and after it wakes up (answer or timeout): `finally: del _answer_waiting[hbh]`. -/
 def appSendRequestEnd (s : St) (ai : Nat) (hbh : Nat) : St × Bool :=
